@@ -189,7 +189,10 @@ def check_surrogate(case):
     sys.stdout = io.StringIO()
     try:
         if "df" in case["train"]:
-            s.trainDrivingForce(xt, Tt if len(Tt) > 1 else Tt[0], logX=case["logX"])
+            if case.get("pointwise"):
+                s.trainDrivingForce(xt, np.array(case["Tpoint"]), logX=case["logX"], broadcast=False)
+            else:
+                s.trainDrivingForce(xt, Tt if len(Tt) > 1 else Tt[0], logX=case["logX"])
             d = s.drivingForceData["BETA"]
             dg, xp = s.getDrivingForce(d["x"], d["T"])
             rng = max(float(np.ptp(d["dg"])), 1e-300)
@@ -198,7 +201,10 @@ def check_surrogate(case):
             trained.append("df")
         if "diff" in case["train"]:
             T2 = Tt if len(Tt) > 1 else [Tt[0], Tt[0] + 50.0]
-            s.trainDiffusivity(xt, T2, logX=case["logX"])
+            if case.get("pointwise"):
+                s.trainDiffusivity(xt, np.array(case["Tpoint"]), logX=case["logX"], broadcast=False)
+            else:
+                s.trainDiffusivity(xt, T2, logX=case["logX"])
             d = s.diffusivityData["ALPHA"]
             D = s.getInterdiffusivity(d["x"], d["T"])
             ref = np.ravel(d["dnkj"])
@@ -208,10 +214,15 @@ def check_surrogate(case):
             trained.append("diff")
         if "ic" in case["train"]:
             gt = np.array(case["gtrain"], dtype=float)
-            s.trainInterfacialComposition(Tt[0], gt, logY=case["logX"])
+            if case.get("pointwise"):
+                s.trainInterfacialComposition(np.array(case["Tpoint"])[:len(gt)], gt[:len(case["Tpoint"])], logY=case["logX"], broadcast=False)
+            elif case.get("ic_grid") and len(Tt) > 1:
+                s.trainInterfacialComposition(np.array(Tt), gt, logY=case["logX"])          # grid over temperatures and Gibbs-Thomson energies
+            else:
+                s.trainInterfacialComposition(Tt[0], gt, logY=case["logX"])
             d = s.interfacialCompositionData["BETA"]
             if len(d["gExtra"]) >= 2:
-                xa, xb = s.getInterfacialComposition(Tt[0], d["gExtra"])
+                xa, xb = s.getInterfacialComposition(np.ravel(d["T"]) if (case.get("pointwise") or case.get("ic_grid")) else Tt[0], d["gExtra"])
                 rng = max(float(np.ptp(d["xpalpha"])), 1e-300)
                 if not np.allclose(np.ravel(xa), np.ravel(d["xpalpha"]), rtol=1e-6, atol=1e-6 * rng):
                     out.fail("training_data_not_reproduced", "interfacial-composition surrogate at its training points: max deviation %.3e of range %.3e" % (float(np.max(np.abs(np.ravel(xa) - np.ravel(d["xpalpha"])))), rng), quantity="ic")
@@ -237,11 +248,226 @@ def check_surrogate(case):
                             break
             finally:
                 shutil.rmtree(tmp, ignore_errors=True)
+    except np.linalg.LinAlgError as e:
+        out.label("training_refused:" + type(e).__name__)
+    except Exception as e:
+        import traceback
+        fr = [f for f in traceback.extract_tb(e.__traceback__) if "/kawin/" in f.filename]
+        if not fr:
+            raise
+        out.fail("surrogate_raised:%s" % type(e).__name__, "%r at %s:%d (%s); trained so far %r, training %r%s" % (e, os.path.basename(fr[-1].filename), fr[-1].lineno, fr[-1].name, trained, case["train"],
+                 ", point-wise lists" if case.get("pointwise") else (", temperature x Gibbs-Thomson grid" if case.get("ic_grid") else "")))
     finally:
         sys.stdout = so
-    out.label("trained_" + "+".join(trained) if trained else "untrained", case["kernel"])
+    out.label("trained_" + "+".join(trained) if trained else "untrained", case["kernel"], "pointwise" if case.get("pointwise") else ("ic_T_grid" if case.get("ic_grid") and len(Tt) > 1 and "ic" in trained else "broadcast"))
     out.nt(0 < len(trained) < 3)
     return out
+
+
+class _ToyMultiSurr(toy.ToyMulti):
+    """ToyMulti with the array conventions the surrogate trainer uses: x (N,e), T (N,) -> (N,e,e) / (N,e+1),
+    and a curvatureFactor returning kawin's CurvatureOutput (stoichiometric precipitate: gba = 0)."""
+
+    def curvatureFactor(self, x, T, precPhase=None, removeCache=False, searchDir=None, computeSearchDir=False):
+        from kawin.thermo.MultiTherm import CurvatureOutput
+        x = np.atleast_1d(np.squeeze(np.asarray(x, dtype=float)))
+        cv = self.curvature(x, float(np.squeeze(T)), precPhase)
+        if cv is None:
+            return None
+        n = len(x)
+        return CurvatureOutput(dc=cv["dc"], mc=cv["mc"], gba=np.zeros((n, n)), beta=cv["beta"], c_eq_alpha=cv["c_eq_alpha"], c_eq_beta=cv["c_eq_beta"])
+
+    def getInterdiffusivity(self, x, T, removeCache=True, phase=None):
+        T = np.atleast_1d(np.asarray(T, dtype=float)).reshape(-1)
+        x = np.atleast_2d(np.asarray(x, dtype=float))
+        n = max(len(T), len(x))
+        T = np.broadcast_to(T, (n,))
+        return np.squeeze(np.array([np.diag(self.Dsol(float(t))) for t in T]))
+
+    def getTracerDiffusivity(self, x, T, removeCache=True, phase=None):
+        T = np.atleast_1d(np.asarray(T, dtype=float)).reshape(-1)
+        x = np.atleast_2d(np.asarray(x, dtype=float))
+        n = max(len(T), len(x))
+        T = np.broadcast_to(T, (n,))
+        return np.squeeze(np.array([np.concatenate([[np.mean(self.Dsol(float(t)))], self.Dsol(float(t))]) for t in T]))
+
+
+def _toy_multi(case):
+    p = case["phase"]
+    return _ToyMultiSurr(["A", "B", "C"], {"BETA": {"xb": p["xb"], "dH": p["dH"], "dS": p["dS"]}}, D0=case["D0"], Q=case["Q"])
+
+
+def _cmp(out, kind, what, got, exp, rtol, extra=None):
+    got = got if isinstance(got, tuple) else (got,)
+    exp = exp if isinstance(exp, tuple) else (exp,)
+    if len(got) != len(exp):
+        out.fail(kind, "%s: %d values returned, expected %d" % (what, len(got), len(exp)), **(extra or {}))
+        return False
+    for i, (g, e) in enumerate(zip(got, exp)):
+        if g is None or e is None:
+            if not (g is None and e is None):
+                out.fail(kind, "%s: item %d is %r, expected %r" % (what, i, g, e), **(extra or {}))
+                return False
+            continue
+        g, e = np.asarray(g, dtype=float), np.asarray(e, dtype=float)
+        ok = (g.shape == e.shape) and (np.array_equal(g, e, equal_nan=True) if rtol == 0 else np.allclose(g, e, rtol=rtol, atol=rtol * max(float(np.max(np.abs(e))) if e.size else 0.0, 1e-300), equal_nan=True))
+        if not ok:
+            out.fail(kind, "%s: item %d is %r (shape %r), expected %r (shape %r)" % (what, i, g.ravel()[:4].tolist(), g.shape, e.ravel()[:4].tolist(), e.shape), **(extra or {}))
+            return False
+    return True
+
+
+def check_surrogate_multi(case):
+    from kawin.thermo import MulticomponentSurrogate
+    out = Out()
+    th = _toy_multi(case)
+    kw = {"kernel": case["kernel"], "normalize": True}
+    s = MulticomponentSurrogate(th, kernelKwargs=kw)
+    xq = np.array(case["xq"], dtype=float)           # (2, 2)
+    Tq = np.array(case["Tq"], dtype=float)
+    R = np.array(case["R"], dtype=float)
+    g = np.array(case["g"], dtype=float)
+    trained = []
+    so = sys.stdout
+    sys.stdout = io.StringIO()
+    try:
+        def queries(z):
+            res = {}
+            x1, T1 = xq[0], float(Tq[0])
+            dg1 = float(np.squeeze(th.getDrivingForce(x1, T1)[0]))
+            res["curvatureFactor"] = tuple(z.curvatureFactor(x1, T1))
+            res["getGrowthAndInterfacialComposition"] = tuple(z.getGrowthAndInterfacialComposition(x1, T1, dg1, R, g))
+            res["impingementFactor"] = z.impingementFactor(x1, T1)
+            res["getDrivingForce"] = z.getDrivingForce(xq, Tq)
+            res["getDrivingForce1"] = z.getDrivingForce(x1, T1)
+            res["getInterdiffusivity"] = z.getInterdiffusivity(xq, Tq)
+            res["getTracerDiffusivity"] = z.getTracerDiffusivity(xq, Tq)
+            return res
+        # untrained: exactly the backend, for every quantity
+        ref = queries(th)
+        got = queries(s)
+        for name in ref:
+            _cmp(out, "untrained_getter_differs", "untrained %s" % name, got[name], ref[name], 0, {"getter": name})
+        xt = np.array(case["xtrain"], dtype=float)
+        Tt = np.array(case["Ttrain"], dtype=float)
+        bc = case["broadcast"]
+        try:
+            Targ = Tt if (len(Tt) > 1 or not bc) else float(Tt[0])
+            if "df" in case["train"]:
+                s.trainDrivingForce(xt, Targ, logX=case["logX"], broadcast=bc)
+                trained.append("df")
+            if "diff" in case["train"]:
+                s.trainDiffusivity(xt, Targ, logX=case["logX"], broadcast=bc)
+                trained.append("diff")
+            if "curv" in case["train"]:
+                s.trainCurvature(xt, Targ, logX=case["logX"], broadcast=bc)
+                trained.append("curv")
+        except np.linalg.LinAlgError as e:     # a numerically singular interpolation matrix is refused by scipy; the statement is about trained surrogates
+            out.label("training_refused:" + type(e).__name__)
+            return out
+        # untrained quantities of a partly trained surrogate still come from the backend
+        got = queries(s)
+        groups = {"df": ["getDrivingForce", "getDrivingForce1"], "diff": ["getInterdiffusivity", "getTracerDiffusivity"],
+                  "curv": ["curvatureFactor", "getGrowthAndInterfacialComposition", "impingementFactor"]}
+        for grp, names in groups.items():
+            if grp not in trained:
+                for name in names:
+                    _cmp(out, "untrained_getter_differs", "%s (not trained; trained: %s)" % (name, "+".join(trained) or "-"), got[name], ref[name], 0, {"getter": name, "trained": trained})
+        # trained quantities reproduce their training data at the training points
+        tol = 1e-6
+        if "df" in trained:
+            d = s.drivingForceData["BETA"]
+            dg, xp = s.getDrivingForce(d["x"], d["T"])
+            rng = max(float(np.ptp(d["dg"])), 1e-300)
+            if np.shape(dg) != np.shape(d["dg"]) or not np.allclose(dg, d["dg"], rtol=0, atol=tol * rng):
+                out.fail("training_data_not_reproduced", "driving force at its training points deviates by %.3e of range %.3e" % (float(np.max(np.abs(np.ravel(dg) - np.ravel(d["dg"])))) if np.size(dg) == np.size(d["dg"]) else -1, rng), quantity="df")
+            if np.shape(xp) != np.shape(d["xp"]) or not np.allclose(xp, d["xp"], rtol=0, atol=tol):
+                out.fail("training_data_not_reproduced", "nucleus composition at the training points: %r vs %r" % (np.ravel(xp)[:4].tolist(), np.ravel(d["xp"])[:4].tolist()), quantity="df_xp")
+        if "diff" in trained:
+            d = s.diffusivityData["ALPHA"]
+            D = s.getInterdiffusivity(np.asarray(d["x"]), np.asarray(d["T"]))
+            Dt = s.getTracerDiffusivity(np.asarray(d["x"]), np.asarray(d["T"]))
+            for nm, a, b in (("interdiffusivity", D, d["dnkj"]), ("tracer diffusivity", Dt, d["dtracer"])):
+                a, b = np.asarray(a, dtype=float), np.asarray(b, dtype=float)
+                if a.shape != b.shape or not np.allclose(np.cbrt(a), np.cbrt(b), rtol=0, atol=tol * max(float(np.ptp(np.cbrt(b))), float(np.max(np.abs(np.cbrt(b)))) * 1e-3, 1e-300)):
+                    out.fail("training_data_not_reproduced", "%s at its training points (cube-root scale): shapes %r/%r, max deviation %r" % (nm, a.shape, b.shape, float(np.max(np.abs(np.cbrt(a) - np.cbrt(b)))) if a.shape == b.shape else None), quantity="diff")
+        if "curv" in trained:
+            d = s.curvatureData["BETA"]
+            bad = False
+            for k in range(len(d["x"])):
+                cv = s.curvatureFactor(np.asarray(d["x"][k]), float(d["T"][k]))
+                for nm in ("dc", "mc", "gba", "beta", "xEqAlpha", "xEqBeta"):
+                    col = np.asarray(d[nm], dtype=float)
+                    want = col[k]
+                    have = np.asarray(getattr(cv, {"xEqAlpha": "c_eq_alpha", "xEqBeta": "c_eq_beta"}.get(nm, nm)), dtype=float)
+                    scale = max(float(np.max(np.abs(col))), 1e-300)
+                    if have.shape != np.shape(want) or not np.allclose(have, want, rtol=0, atol=tol * scale):
+                        out.fail("training_data_not_reproduced", "curvature quantity %s at training point %d: %r, training value %r" % (nm, k, np.ravel(have).tolist(), np.ravel(want).tolist()), quantity="curv_" + nm)
+                        bad = True
+                        break
+                if bad:
+                    break
+            # the growth rate and impingement factor of a trained surrogate are those of its curvature factors
+            x1, T1 = np.asarray(d["x"][0], dtype=float), float(d["T"][0])
+            cv = s.curvatureFactor(x1, T1)
+            dg1 = float(np.squeeze(th.getDrivingForce(x1, T1)[0]))
+            gr = s.getGrowthAndInterfacialComposition(x1, T1, dg1, R, g)
+            if not np.allclose(np.asarray(gr.growth_rate, dtype=float), float(cv.mc) / R * (dg1 - g), rtol=1e-10, atol=0):
+                out.fail("trained_growth_inconsistent", "trained growth rate %r is not mc/R (dG - g) = %r with the surrogate's own curvature factors" % (np.ravel(gr.growth_rate).tolist(), (float(cv.mc) / R * (dg1 - g)).tolist()))
+            if not np.allclose(float(np.squeeze(s.impingementFactor(x1, T1))), float(np.squeeze(cv.beta)), rtol=1e-12, atol=0):
+                out.fail("trained_growth_inconsistent", "trained impingement factor differs from the surrogate's curvature beta")
+        # JSON round trip into a fresh surrogate
+        if trained:
+            tmp = tempfile.mkdtemp(prefix="vk_c20_")
+            try:
+                fn = os.path.join(tmp, "s.json")
+                s.toJson(fn)
+                s2 = MulticomponentSurrogate(_toy_multi(case), kernelKwargs=kw)
+                s2.fromJson(fn)
+                a, b = queries(s), queries(s2)
+                for name in a:
+                    _cmp(out, "json_roundtrip_differs", "%s from the surrogate rebuilt from its file" % name, b[name], a[name], 1e-12, {"getter": name})
+            finally:
+                shutil.rmtree(tmp, ignore_errors=True)
+    except Exception as e:
+        import traceback
+        tb = traceback.extract_tb(e.__traceback__)
+        fr = [f for f in tb if "/kawin/" in f.filename]
+        if not fr:
+            raise
+        out.fail("surrogate_query_raised:%s" % type(e).__name__, "%r at %s:%d (%s); trained %r" % (e, os.path.basename(fr[-1].filename), fr[-1].lineno, fr[-1].name, trained))
+    finally:
+        sys.stdout = so
+    out.label("trained_" + "+".join(trained) if trained else "untrained", case["kernel"], "broadcast" if case["broadcast"] else "pointwise", "T_%d" % len(set(case["Ttrain"])))
+    out.nt(0 < len(trained) < 3)
+    return out
+
+
+@st.composite
+def _surr_multi_case(draw):
+    T0 = draw(st.floats(600, 1000))
+    x0 = [draw(st.floats(0.01, 0.08)), draw(st.floats(0.01, 0.08))]
+    xb = [draw(st.floats(0.1, 0.4)), draw(st.floats(0.1, 0.4))]
+    S = 10 ** draw(st.floats(0.5, 1.5))
+    lnK = xb[0] * np.log(x0[0]) + xb[1] * np.log(x0[1]) - np.log(S)
+    dS = draw(st.floats(0, 30))
+    phase = {"xb": xb, "dS": dS, "dH": float(8.314462618 * T0 * (dS / 8.314462618 - lnK))}
+    bc = draw(st.booleans())
+    nT = draw(st.sampled_from([1, 2, 3]))
+    if bc:
+        nx = draw(st.integers(4, 7))
+        Ttrain = [T0, T0 + 30.0, T0 - 30.0][:nT]
+    else:
+        nx = draw(st.integers(6, 10))
+        Ttrain = [T0 - 40.0 + 80.0 * (k + draw(st.floats(0.0, 0.6))) / nx for k in draw(st.permutations(list(range(nx))))]    # point-wise lists: distinct temperatures (a constant column is degenerate)
+    # distinct, separated training compositions (duplicates make any interpolant singular): distinct cells of a 5x5 lattice, jittered inside the cell
+    cells = draw(st.lists(st.tuples(st.integers(0, 4), st.integers(0, 4)), min_size=nx, max_size=nx, unique=True))
+    xtrain = [[x0[0] * (0.8 + 0.2 * i + draw(st.floats(0.0, 0.08))), x0[1] * (0.8 + 0.2 * j + draw(st.floats(0.0, 0.08)))] for i, j in cells]
+    train = draw(st.lists(st.sampled_from(["df", "diff", "curv", "curv"]), min_size=0, max_size=3, unique=True))
+    return {"phase": phase, "D0": [1e-5, 3e-5], "Q": [draw(st.floats(100e3, 250e3)), draw(st.floats(100e3, 250e3))], "xtrain": xtrain, "Ttrain": Ttrain, "broadcast": bc,
+            "train": train, "logX": draw(st.booleans()), "kernel": draw(st.sampled_from(["cubic", "linear", "thin_plate_spline"])),
+            "xq": [[x0[0] * 1.1, x0[1] * 1.2], [x0[0] * 1.3, x0[1] * 0.9]], "Tq": [T0 + 5.0, T0 - 5.0],
+            "R": [1e-9, 3e-9, 1e-8], "g": [2000.0, 700.0, 200.0]}
 
 
 @st.composite
@@ -284,7 +510,9 @@ def _surr_case(draw):
     xtrain = list(np.logspace(np.log10(lo), np.log10(hi), nx) if draw(st.booleans()) else np.linspace(lo, hi, nx))
     Ttrain = [T0] if draw(st.booleans()) else [T0 - 40.0, T0, T0 + 40.0][: draw(st.integers(2, 3))]
     train = draw(st.lists(st.sampled_from(["df", "diff", "ic"]), min_size=0, max_size=3, unique=True))
-    return {"phase": phase, "D0": 1e-5, "Q": draw(st.floats(100e3, 250e3)), "xtrain": [float(v) for v in xtrain], "Ttrain": Ttrain,
+    pointwise = draw(st.integers(0, 3)) == 3
+    Tpoint = [T0 - 40.0 + 80.0 * (k + draw(st.floats(0.0, 0.6))) / nx for k in draw(st.permutations(list(range(nx))))] if pointwise else None
+    return {"pointwise": pointwise, "Tpoint": Tpoint, "ic_grid": draw(st.booleans()), "phase": phase, "D0": 1e-5, "Q": draw(st.floats(100e3, 250e3)), "xtrain": [float(v) for v in xtrain], "Ttrain": Ttrain,
             "gtrain": [float(v) for v in np.linspace(draw(st.floats(50, 500)), draw(st.floats(1000, 4000)), draw(st.integers(4, 7)))],
             "train": train, "logX": draw(st.booleans()), "kernel": draw(st.sampled_from(["cubic", "linear", "thin_plate_spline"])),
             "xq": [float(lo * 1.3), float(0.5 * (lo + hi))], "Tq": [T0, T0 + 10.0], "gq": [300.0, 900.0]}
@@ -300,4 +528,7 @@ def clauses():
         Clause("surrogate", _surr_case, check_surrogate, quick=800, thorough=20000,
                rule="generator: BinarySurrogate over an analytic binary backend, trained for a random subset of {driving force, diffusivity, interfacial composition} on linear/log grids (single temperature or 2-3 temperatures), three kernels; "
                     "oracle: untrained getters return exactly the backend's value for the same quantity, trained models reproduce their training outputs at the training inputs, a surrogate rebuilt from its JSON file predicts identically; non-trivial: at least one trained and one untrained quantity"),
+        Clause("surrogate_multi", _surr_multi_case, check_surrogate_multi, quick=500, thorough=12000,
+               rule="generator: MulticomponentSurrogate over an analytic ternary backend (solubility product, stoichiometric precipitate), trained for a random subset of {driving force, diffusivity, curvature factors} on 4-10 composition points x 1-3 temperatures, broadcast grid or point-wise lists, linear/log composition, three kernels; "
+                    "oracle: every getter of an untrained quantity (driving force, curvature factors, growth and interfacial composition, impingement factor, inter- and tracer diffusivity) returns exactly the backend's value, also after other quantities were trained; trained models reproduce every training output at the training inputs; trained growth/impingement follow from the surrogate's own curvature factors; a surrogate rebuilt from its JSON file predicts identically; non-trivial: at least one trained and one untrained quantity"),
     ]
